@@ -754,6 +754,10 @@ def main(P, argv=None):
     ap.add_argument("--replay", default=None)
     a = ap.parse_args(argv)
     seed = int(os.environ.get("VERIF_SEED", "20260926"))
+    # one run per property at a time: runs of the same property share work/<pid>/ (case files, generated models)
+    os.makedirs(os.path.join(VERIF, "work"), exist_ok=True)
+    runlock = open(os.path.join(VERIF, "work", ".run.%s.lock" % P.pid), "w")
+    fcntl.flock(runlock, fcntl.LOCK_EX)
     ctx = Ctx(P.pid, a.tier, seed)
     try:
         rc = standard_check(P, ctx, replay=a.replay)
